@@ -553,3 +553,8 @@ M('C07', 'revert F24: det hands integer operands to Determinant', 'function.py',
 M('C07', 'benign: inv rejects integer operands instead of converting', 'function.py', "        if a.dtype in (bool, int):\n            a = a.astype(float)\n        return _Wrapper(evaluable.Inverse", "        if a.dtype in (bool, int):\n            raise TypeError('integer matrices cannot be inverted')\n        return _Wrapper(evaluable.Inverse", expect='silent')
 M('C15', 'seed C15-agent2-3: csr row pointers from bincount without minlength', 'matrix/_numpy.py', "rows.searchsorted(numpy.arange(self.shape[0]+1))", "numpy.concatenate([[0], numpy.bincount(rows).cumsum()])", rule='R15.3')
 M('C15', 'benign: csr row pointers from bincount with minlength', 'matrix/_numpy.py', "rows.searchsorted(numpy.arange(self.shape[0]+1))", "numpy.concatenate([[0], numpy.bincount(rows, minlength=self.shape[0]).cumsum()])", expect='silent')
+M('C05', 'seed C05-agent-1: dof map strides from the un-reversed shape', 'evaluable.py', "strides = (1, *itertools.accumulate(self.dofmap.shape[:0:-1], operator.mul))[::-1]", "strides = (1, *itertools.accumulate(self.dofmap.shape[1:], operator.mul))[::-1]", rule='R05.6')
+M('C05', 'dof map strides not reversed at the end', 'evaluable.py', "strides = (1, *itertools.accumulate(self.dofmap.shape[:0:-1], operator.mul))[::-1]", "strides = (1, *itertools.accumulate(self.dofmap.shape[:0:-1], operator.mul))", rule='R05.6')
+M('C05', 'benign: dof map strides with reversed()', 'evaluable.py', "strides = (1, *itertools.accumulate(self.dofmap.shape[:0:-1], operator.mul))[::-1]", "strides = tuple(reversed((1, *itertools.accumulate(reversed(self.dofmap.shape[1:]), operator.mul))))", expect='silent')
+M('C05', 'seed C05-agent-2: cluster scan stops after the first merge', 'evaluable.py', "                    uninserted = align(uninserted, numpy.searchsorted(where, w), shape) * align(unins_, numpy.searchsorted(where, w_), shape)\n            clusters.append((uninserted, where))", "                    uninserted = align(uninserted, numpy.searchsorted(where, w), shape) * align(unins_, numpy.searchsorted(where, w_), shape)\n                    break\n            clusters.append((uninserted, where))", rule='R05.7')
+M('C05', 'benign: cluster overlap test with isdisjoint', 'evaluable.py', "                if set(where) & set(clusters[i][1]):\n                    w = where", "                if not set(where).isdisjoint(clusters[i][1]):\n                    w = where", expect='silent')
